@@ -95,7 +95,7 @@ func TestC15(t *testing.T) {
 	if rep.Thorough() {
 		sel = []int{0, 1, 2, 3, 4, 5, 6, 7}
 	}
-	runHistoryShards(t, run, "c15", len(c15Configs()), sel, depth, rep.Deadline(4*time.Minute, 90*time.Minute))
+	runHistoryShards(t, run, "c15", len(c15Configs()), sel, depth, rep.Deadline(4*time.Minute, 45*time.Minute))
 	// merge racing with commits on the parent / child: all interleavings
 	c15Races(t, run)
 	run.Set("rule", "BFS to the stated depth over {load(2 batches), delete, delete-where, compact, revert(any of the last 3 commits of the chain), create branch b (at tip / first commit) and c (from b or main), merge in every direction} on main and up to two branches; model: merge(c→p) = p ∪ (c∖a) ∖ (a∖c) on objects with a the nearest common commit, and additionally on values as multisets (parent's values + child's additions - child's deletions), or an error that leaves p untouched; revert(x) removes x's additions still present and restores x's deletions still absent. Every state: all branches and all earlier commits readable and equal to the model. Plus merge‖load races explored under the controlled scheduler")
@@ -126,6 +126,6 @@ func c15RaceScenarios() []concScenario {
 
 func c15Races(t *testing.T, run *rep.Run) {
 	sub := rep.Start("C15", "model_checking")
-	runConc(t, sub, c15RaceScenarios(), 3*time.Minute, 40*time.Minute)
+	runConc(t, sub, c15RaceScenarios(), 3*time.Minute, 20*time.Minute)
 	run.Merge(sub, "race_")
 }
